@@ -56,6 +56,7 @@ PROPS = {
         suite="erc20",
         modules=["CantoVerif.Props.C04"],
         theorems=[
+            "CV.later_failure_unchanged",
             "CV.Erc20.convert_failed_unchanged", "CV.Erc20.convert_failed_unchanged_script", "CV.Erc20.convert_failed_unchanged_fault",
             "CV.Erc20.rejected_unchanged_monitor",
             "CV.Erc20.convertCoin_success_paths", "CV.Erc20.convertERC20_success_paths",
